@@ -42,6 +42,18 @@ CHECKS = {
                      "identity; every MERGE is repeated and must then create nothing; statements whose outcome depends on row order are "
                      "recognised by the specification (reversed-row evaluation) and not judged.",
                 note="known findings KF-15/16 (update expressions read a snapshot, not the statement's own writes)"),
+    "C13": dict(ref="5 C13", tech="TLA+ reference semantics (CypherUpdate.tla) on recorded C API scripts (trace validation, CypherTrace.TUpd/TTxn)",
+                text="Statements that fail (conversion error at a later row, index error, connected-node DELETE after a CREATE, syntax error) "
+                     "run through ndb_execute_write and inside ndb_begin_write/ndb_txn_query/ndb_txn_commit|rollback scripts; TLC applies the "
+                     "reference only to the statements that returned OK and requires the dumped graph to equal the result: a failed statement "
+                     "leaves no trace, also when the transaction is committed afterwards.",
+                note="known finding KF-20 (partial effects of a failed statement are committed by an explicit transaction)"),
+    "C14": dict(ref="5 C14", tech="TLA+ trace validation (CypherUpdate.DumpIllFormed + DeleteClause rule) of update and transaction executions",
+                text="Every graph dump recorded after an update statement or a C API transaction is checked by TLC: each relationship of the "
+                     "outgoing and of the incoming view joins two listed nodes and both views list the same relationships; the reference's "
+                     "DELETE rule (a node with remaining relationships, including ones created earlier in the statement / transaction, "
+                     "cannot be deleted without DETACH) decides which statements must fail.",
+                note="known findings KF-21 (transaction statements read the committed snapshot) and KF-22 (CREATE ... DELETE in one statement)"),
     "C15": dict(ref="5 C15", tech="TLA+ reference evaluator (CypherSem.tla) on recorded executions of paired indexed / unindexed databases (trace validation)",
                 text="Each seeded history (creates, updates by id and by value, property removal, label changes, deletes, compaction, reopen, "
                      "index creation at a random point) runs on two databases, with and without the index; after every step the equality "
@@ -58,6 +70,11 @@ CHECKS = {
                      "return the same bag of rows or a resource-limit error, with the reported observed count of per-row limits <= limit+1 "
                      "and timeout overshoot within slack.",
                 note="differential oracle (weakest binding of the set); collection-size overshoot is not bounded by the rule"),
+    "C24": dict(ref="5 C24", tech="TLA+ reference semantics (CypherUpdate.tla) on recorded C API transactions (trace validation, CypherTrace.TTxn)",
+                text="Explicit C API transactions whose later statements MATCH / SET / MERGE / DELETE what earlier ones created or changed; TLC "
+                     "applies the statements in order, each on the state left by the earlier ones, and requires the dump after COMMIT to equal "
+                     "the result (after ROLLBACK: the graph before); a divergence is attributed by re-evaluating with committed-snapshot reads.",
+                note="known finding KF-21"),
     "C26": dict(ref="5 C26", tech="TLC model checking of BTree.tla + TLA+ trace validation (BTreeTrace) of the real B-tree",
                 text="BTree.tla transcribes insert/split/delete/cursor with page capacity 2; TLC checks scan/lookup/delete against the "
                      "sorted-multimap ghost exhaustively for unique keys, and reproduces the equal-keys defect whose counterexample is "
@@ -119,7 +136,7 @@ CHECKS = {
 }
 
 # properties whose check has been run green on the unchanged tree
-ENABLED = ["C01", "C02", "C03", "C04", "C05", "C06", "C07", "C08", "C09", "C11", "C12", "C15", "C17", "C19", "C20", "C21", "C22", "C23", "C26", "C27", "C28", "C33"]
+ENABLED = ["C01", "C02", "C03", "C04", "C05", "C06", "C07", "C08", "C09", "C11", "C12", "C13", "C14", "C15", "C17", "C19", "C20", "C21", "C22", "C23", "C24", "C26", "C27", "C28", "C33"]
 
 NOT_APPLICABLE = {
     "C16": "quantifies over arbitrary byte strings and resource exhaustion; no state machine to specify, a fuzzer's job (DESIGN.md 6)",
